@@ -57,7 +57,8 @@ SCEN = {
     'C08': dict(profile='actions', trig=['se_multi', 'se_throws', 'throws', 'nested_call'], minq=200, n=(24000, 900000)),
     'C13': dict(profile='deathwatch', trig=['mon_death', 'unexpected_death', 'mon_released_alive', 'watch_copy', 'watch_assign_monitored'], minq=200, n=(24000, 900000)),
     'C14': dict(profile='hostile', trig=['move_with_exps', 'call_on_moved'], minq=100, n=(30000, 1000000)),
-    'C15': dict(profile='reports', trig=['rejected', 'eol_report', 'pending_report', 'mon_released_alive', 'unexpected_death', 'seq_teardown_pending', 'destr_out_of_seq'], minq=200, n=(24000, 900000)),
+    'C15': dict(profile='reports', trig=['rejected', 'eol_report', 'pending_report', 'mon_released_alive', 'unexpected_death', 'seq_teardown_pending', 'destr_out_of_seq'], minq=200, n=(24000, 900000),
+                extra_profiles=[('hostile', 0.5)]),   # severity (fatal from calls / non-fatal from destructors) is checked even beyond the modelled territory
     'C16': dict(profile='okrep', trig=['accepted'], minq=200, n=(24000, 900000)),
     'C17': dict(profile='tracing', trig=['traced'], minq=200, n=(24000, 900000)),
 }
